@@ -12,7 +12,9 @@ import (
 )
 
 var checks = map[string]func(*rules.Ctx){
+	"C01": rules.C01,
 	"C04": rules.C04,
+	"C05": rules.C05,
 }
 
 func main() {
